@@ -130,6 +130,39 @@ def check_refusal(rep, mod):
             rep.incomplete(tag, 'R-MUSTEXIT', site, str(e))
 
 
+def inv_by_power(rep, mod, name, site, why):
+    """inv without the extended-Euclid loop shape: accepted if the routine, interpreted on a symbolic operand with the
+    refusal guard decided 'non-zero', returns the power in1^(p-2) (AC-normalised power product): in1^(p-1) = 1 (Fermat)"""
+    pp = PPTable()
+    ctx = contracts.Ctx(pp=pp)
+    summ, _ = contracts.wrapper_summaries(mod, ctx)
+    summ.pop(name, None)
+
+    def decide(pred, a, b):
+        d = as_poly(a) - as_poly(b)
+        if pred in ('eq', 'ne') and any(x.startswith('canon{') for x in d.vars()):
+            return pred == 'ne'
+        return None
+    ctx.symbolic_canon = True
+    try:
+        eff = harness.run_routine(mod, name, summ, opts={'decide': decide, 'summ_re': [(re.compile(r'^_ZStls|^_ZNSolsE|^_ZNSo'), lambda I_, a, i: a[0])]})
+        outp = [p_ for p_ in eff.params if p_.dty == 'E&']
+        got = eff.writes.get((outp[0].region.name, 0)) if outp else eff.ret
+        b = Poly.var('in1[0]')
+        acc = None
+        for bit in bin(P - 2)[2:]:
+            if acc is not None:
+                acc = ctx.mul(acc, acc)
+            if bit == '1':
+                acc = b if acc is None else ctx.mul(acc, b)
+        if isinstance(got, FV) and got.nf == acc:
+            rep.ok('inv:power', 'inv-fermat', site, 'the loop is not the extended-Euclid form (%s); the routine returns in1^(p-2), and in1^(p-1) = 1 for in1 != 0 (Fermat)' % why)
+            return
+        rep.incomplete('inv:loop', 'loop-invariant', site, '%s, and the result %s is not the power in1^(p-2) either' % (why, str(got)[:80]))
+    except (Incomplete, IRError, Sink, KeyError) as e:
+        rep.incomplete('inv:loop', 'loop-invariant', site, '%s; as a power: %s' % (why, e))
+
+
 def check_inv_invariant(rep, mod):
     """inductive argument on the extended-Euclid loop: t*a = r and newt*a = newr (mod p) hold on entry and are preserved by
     the loop body executed from an arbitrary state; the returned value is t"""
@@ -138,11 +171,11 @@ def check_inv_invariant(rep, mod):
     site = site_of(mod, name)
     hdr = loop_header(fi)
     if hdr is None:
-        rep.incomplete('inv:loop', 'loop-invariant', site, 'Goldilocks::inv does not have exactly one loop')
+        inv_by_power(rep, front.module('avx2'), front.module('avx2').find(SIG_INV), site, 'Goldilocks::inv does not have exactly one loop')
         return
     phis = [i for i in fi.fn.blocks[hdr] if i.op == 'phi']
     if len(phis) != 4:
-        rep.incomplete('inv:loop', 'loop-invariant', site, 'loop header carries %d variables, the extended-Euclid form has 4' % len(phis))
+        inv_by_power(rep, front.module('avx2'), front.module('avx2').find(SIG_INV), site, 'loop header carries %d variables, the extended-Euclid form has 4' % len(phis))
         return
     ctx = contracts.Ctx()
     ctx.symbolic_canon = True
@@ -167,12 +200,25 @@ def check_inv_invariant(rep, mod):
     qn = [0]
 
     qops = []
+    qcache = {}
+    urems = set()
+
+    def quotient(a, b):
+        k = (as_poly(a).key(), as_poly(b).key())
+        if k not in qcache:
+            qn[0] += 1
+            qops.append((a, b))
+            qcache[k] = Poly.var('Q%d' % qn[0])
+        return qcache[k]
 
     def symbinop(I_, op, a, b, ty):
         if op == 'udiv':
-            qn[0] += 1
-            qops.append((a, b))
-            return Poly.var('Q%d' % qn[0])
+            return quotient(a, b)
+        if op == 'urem':
+            # a % b = a - floor(a/b)*b, an integer in [0, b)
+            r_ = as_poly(a) - quotient(a, b) * as_poly(b)
+            urems.add(r_.key())
+            return r_
         return None
     opts = {'decide': decide, 'symbolic_binop': symbinop,
             'summ_re': [(re.compile(r'^_ZStls|^_ZNSolsE|^_ZNSo'), lambda I_, a, i: a[0])]}
@@ -258,6 +304,8 @@ def check_inv_invariant(rep, mod):
         def is_canon(v):
             if isinstance(v, int):
                 return 0 <= v < P
+            if isinstance(v, Poly) and v.key() in urems:
+                return True           # r % newr is an integer in [0, newr), hence below p
             if isinstance(v, Poly):
                 vs = list(v.vars())
                 return len(vs) == 1 and vs[0].startswith('canon{') and v == Poly.var(vs[0])
